@@ -77,35 +77,46 @@ theorem firstOutside_total (args lo hi : List ℝ) (hl : lo.length = args.length
 
 /-- **outside the box**: if any component lies outside `[lower, upper]` the result is −inf and no
     data likelihood (lens sample, SNe, chain, prior) is evaluated. -/
-theorem outside_box (big : ℝ) (env : Env ℝ) (args : List ℝ) (om ok : ℝ)
+theorem outside_box (big : ℝ) (env : Env ℝ) (args : List ℝ) (om ok : ℝ) (h0 : Option ℝ)
     (lens : Unit → List (FV ℝ)) (sne kde prior : Unit → Option (FV ℝ))
     (hl : env.lower.length = args.length) (hh : env.upper.length = args.length)
     (hout : ∃ (i : ℕ) (a l u : ℝ), args[i]? = some a ∧ env.lower[i]? = some l ∧ env.upper[i]? = some u ∧
         (a < l ∨ u < a)) :
-    likelihood big env args om ok lens sne kde prior = .ok (.ninf, false) := by
+    likelihood big env args om ok h0 lens sne kde prior = .ok (.ninf, false) := by
   obtain ⟨i, hi⟩ := (firstOutside_some_iff args env.lower env.upper hl hh).mpr hout
   simp [likelihood, hi]
 
 /-- **unphysical curved ΛCDM**: −inf, nothing evaluated -/
-theorem unphysical_olcdm (big : ℝ) (env : Env ℝ) (args : List ℝ) (om ok : ℝ)
+theorem unphysical_olcdm (big : ℝ) (env : Env ℝ) (args : List ℝ) (om ok : ℝ) (h0 : Option ℝ)
     (lens : Unit → List (FV ℝ)) (sne kde prior : Unit → Option (FV ℝ))
     (hin : firstOutside args env.lower env.upper = .ok none) (hol : env.olcdm = true)
     (hbad : guardOK om ok env.lensZ env.zMax = false) :
-    likelihood big env args om ok lens sne kde prior = .ok (.ninf, false) := by
+    likelihood big env args om ok h0 lens sne kde prior = .ok (.ninf, false) := by
   simp [likelihood, hin, hol, hbad]
 
 /-- **inside and physical**: the result is the sum of the (sanitised) lens terms and the other
     terms, each evaluated — so −inf arises EXACTLY outside the box / guard or from a −inf term. -/
-theorem inside_passes (big : ℝ) (env : Env ℝ) (args : List ℝ) (om ok : ℝ)
+theorem inside_passes (big : ℝ) (env : Env ℝ) (args : List ℝ) (om ok : ℝ) (h0 : Option ℝ)
     (lens : Unit → List (FV ℝ)) (sne kde prior : Unit → Option (FV ℝ))
     (hin : firstOutside args env.lower env.upper = .ok none)
-    (hphys : env.olcdm = true → guardOK om ok env.lensZ env.zMax = true) :
-    ∃ v, likelihood big env args om ok lens sne kde prior = .ok (v, true) := by
+    (hphys : env.olcdm = true → guardOK om ok env.lensZ env.zMax = true) (hh0 : h0OK h0 = true) :
+    ∃ v, likelihood big env args om ok h0 lens sne kde prior = .ok (v, true) := by
   unfold likelihood
   simp only [hin]
   cases hol : env.olcdm with
-  | false => simp
-  | true => simp [hphys hol]
+  | false => simp [hh0]
+  | true => simp [hphys hol, hh0]
+
+/-- **H0 ≤ 0 on the edge of the box** (cosmology built from the sampled parameters): −inf, nothing evaluated — every
+    distance scales as 1/H0 -/
+theorem nonpositive_h0 (big : ℝ) (env : Env ℝ) (args : List ℝ) (om ok h : ℝ)
+    (lens : Unit → List (FV ℝ)) (sne kde prior : Unit → Option (FV ℝ))
+    (hin : firstOutside args env.lower env.upper = .ok none) (hh : h ≤ 0) :
+    likelihood big env args om ok (some h) lens sne kde prior = .ok (.ninf, false) := by
+  have : h0OK (some h) = false := by simp [h0OK, lit_zero, not_lt.mpr hh]
+  unfold likelihood
+  simp only [hin, this]
+  cases env.olcdm && !(guardOK om ok env.lensZ env.zMax) <;> simp
 
 /-! ### B. value classes: never NaN, never +inf -/
 
@@ -132,18 +143,20 @@ theorem lens_sum_fin (big : ℝ) (ts : List (FV ℝ)) (acc : ℝ) :
 
 /-- **never NaN, never +inf**: whatever the per-lens data likelihoods return, if the SNe, chain and
     prior terms are finite or −inf, the log-probability is a real number or −inf. -/
-theorem total_class (big : ℝ) (env : Env ℝ) (args : List ℝ) (om ok : ℝ)
+theorem total_class (big : ℝ) (env : Env ℝ) (args : List ℝ) (om ok : ℝ) (h0 : Option ℝ)
     (lens : Unit → List (FV ℝ)) (sne kde prior : Unit → Option (FV ℝ))
     (hs : ∀ x, sne () = some x → Good x) (hk : ∀ x, kde () = some x → Good x)
     (hp : ∀ x, prior () = some x → Good x) (v : FV ℝ) (e : Bool)
-    (h : likelihood big env args om ok lens sne kde prior = .ok (v, e)) : Good v := by
+    (h : likelihood big env args om ok h0 lens sne kde prior = .ok (v, e)) : Good v := by
   unfold likelihood at h
   split at h
   · simp at h
   · simp only [Except.ok.injEq, Prod.mk.injEq] at h; rw [← h.1]; trivial
   · split at h
     · simp only [Except.ok.injEq, Prod.mk.injEq] at h; rw [← h.1]; trivial
-    · simp only [Except.ok.injEq, Prod.mk.injEq] at h
+    · split at h
+      · simp only [Except.ok.injEq, Prod.mk.injEq] at h; rw [← h.1]; trivial
+      simp only [Except.ok.injEq, Prod.mk.injEq] at h
       rw [← h.1]
       obtain ⟨y, hy⟩ := lens_sum_fin big (lens ()) 0.0
       rw [hy]
